@@ -2,7 +2,7 @@
    Models: model/GridWorld.v, model/Domains.v (executed by the harness on every run); proofs: theory/DomainsTheory.v.
    All statements: rectangular layouts of ANY size, all parameters in range. *)
 From Coq Require Import ZArith QArith Qabs List Bool.
-From MSDM Require Import model.GridWorld model.Domains theory.DomainsTheory.
+From MSDM Require Import model.GridWorld model.Domains theory.DomainsTheory theory.DomainsClosure.
 Import ListNotations.
 Local Open Scope Z_scope.
 
@@ -183,3 +183,57 @@ Theorem cliff_reset : forall (rows : layout) (s a : pos),
      cliff_next rows s a = [(cliff_apply rows s a, 1%Q)] /\ cliff_reward rows s a = (-1)%Q).
 Proof. exact DomainsTheory.cliff_reset. Qed.
 Print Assumptions cliff_reset.
+
+(* ---------------- reachability-defined state lists (theory/DomainsClosure.v) ----------------
+   windy_states / cliff_states are the executable iterated closures the harness evaluates and compares (as sets)
+   with msdm's state_list on every run; windy_reach / cliff_reach are the inductive reachable sets
+   (initial states expanded always, other states only when not absorbing, as MarkovDecisionProcess.reachable_states). *)
+Theorem windy_reach_closed : forall (w : windyp) (s a ns : pos) (p : Q),
+  In s (windy_states w) -> windy_is_absorbing w s = false -> In a gm_actions ->
+  In (ns, p) (windy_next w s a) -> ~ (p == 0)%Q -> In ns (windy_states w).
+Proof. exact DomainsClosure.windy_reach_closed. Qed.
+Print Assumptions windy_reach_closed.
+
+Theorem windy_reach_closed_init : forall (w : windyp) (s a ns : pos) (p : Q),
+  In s (windy_init_states w) -> In a gm_actions ->
+  In (ns, p) (windy_next w s a) -> ~ (p == 0)%Q -> In ns (windy_states w).
+Proof. exact DomainsClosure.windy_reach_closed_init. Qed.
+Print Assumptions windy_reach_closed_init.
+
+Theorem windy_states_spec : forall (w : windyp) (s : pos), In s (windy_states w) <-> windy_reach w s.
+Proof. exact DomainsClosure.windy_states_spec. Qed.
+Print Assumptions windy_states_spec.
+
+Theorem windy_states_wf : forall w : windyp,
+  NoDup (windy_states w) /\ incl (windy_init_states w) (windy_states w) /\
+  forall s, In s (windy_states w) -> in_range (gm (w_rows w)) s.
+Proof. exact DomainsClosure.windy_states_wf. Qed.
+Print Assumptions windy_states_wf.
+
+(* REFUTED for absorbing states: layout "@$." — the listed goal cell (1,0) moves right with probability 1 to the
+   grid cell (2,0), which is not in the state list (known finding C20:windygridworld:successor-of-absorbing-...) *)
+Theorem windy_closure_refuted :
+  exists w s a ns p,
+    In s (windy_states w) /\ windy_is_absorbing w s = true /\ In a gm_actions /\
+    In (ns, p) (windy_next w s a) /\ (p == 1)%Q /\ in_range (gm (w_rows w)) ns /\ ~ In ns (windy_states w).
+Proof. exact DomainsClosure.windy_closure_refuted. Qed.
+Print Assumptions windy_closure_refuted.
+
+Theorem cliff_reach_closed : forall (rows : layout) (s a ns : pos) (p : Q),
+  In s (cliff_states rows) -> cliff_is_absorbing rows s = false -> In a gm_actions ->
+  In (ns, p) (cliff_next rows s a) -> ~ (p == 0)%Q -> In ns (cliff_states rows).
+Proof. exact DomainsClosure.cliff_reach_closed. Qed.
+Print Assumptions cliff_reach_closed.
+
+Theorem cliff_states_spec : forall (rows : layout) (s : pos), In s (cliff_states rows) <-> cliff_reach rows s.
+Proof. exact DomainsClosure.cliff_states_spec. Qed.
+Print Assumptions cliff_states_spec.
+
+(* the cliff dynamics on another GridMDP grid ("sg.") fail the absorbing-state clause in the same way; the
+   CliffWalking instance itself is fully closed (Example cliff_grid_states_closed, evaluated) *)
+Theorem cliff_closure_refuted :
+  exists rows s a ns p,
+    In s (cliff_states rows) /\ cliff_is_absorbing rows s = true /\ In a gm_actions /\
+    In (ns, p) (cliff_next rows s a) /\ (p == 1)%Q /\ ~ In ns (cliff_states rows).
+Proof. exact DomainsClosure.cliff_closure_refuted. Qed.
+Print Assumptions cliff_closure_refuted.
